@@ -109,3 +109,41 @@ type WClock struct {
 func wclock() WClock {
 	return WClock{At: ctime.Time{S: "abc", N: 7}, P: &ctime.Time{S: "abc", N: 7}, Ls: []ctime.Time{{S: "abc", N: 7}}, After: "abc"}
 }
+
+// round 5: arrays of structs (an all-zero array is a zero value), maps keyed by other kinds, pointers to pointers
+type WReq struct {
+	R string `valid:"required|T95"`
+	N int    `valid:"ge=5|T96"`
+}
+
+type WArr struct {
+	A [2]WReq `valid:"exist"`
+	B [2]WReq `valid:"required|T91"`
+}
+
+type WKeyed struct {
+	MB map[bool]WReq    `valid:"exist"`
+	MF map[float64]WReq `valid:"exist"`
+	MP map[int8]*WReq   `valid:"required|T93"`
+	MU map[uint16]WReq  `valid:"exist"`
+}
+
+type WPP struct {
+	PP **WReq `valid:"required|T94"`
+	EP **WReq `valid:"exist"`
+}
+
+type WJson struct {
+	J string `valid:"json|T97"`
+	K string `valid:"json"`
+}
+
+// embedded fields: a named scalar type carrying a rule, an embedded struct under exist
+type WAge int32
+type WNick string
+type WEmb struct {
+	WAge  `valid:"to=1~150|T81"`
+	WNick `valid:"to=5~9|T82"`
+	WReq  `valid:"exist"`
+	N     int `valid:"ge=5|T83"`
+}
